@@ -644,12 +644,15 @@ def descend(body, steps):
     """steps: [[<test source>, 'body' | 'orelse'], ...] - walk into the named branch of the `if` with that test"""
     for test, take in steps:
         found = None
+        kind = ast.If
+        if test.startswith('while:'):
+            kind, test = ast.While, test[6:]
         for st in body:
-            if isinstance(st, ast.If) and unparse(st.test).strip() == test.strip():
+            if isinstance(st, kind) and unparse(st.test).strip() == test.strip():
                 found = st
                 break
         if found is None:
-            raise Unsupported('no `if %s` where the kernel is expected' % test)
+            raise Unsupported('no `%s %s` where the kernel is expected' % ('if' if kind is ast.If else 'while', test))
         body = list(found.body if take == 'body' else found.orelse)
     return body
 
